@@ -148,7 +148,7 @@ fn message_prop(model: &Model, queries: &[usize], tape: &[u32], st: &mut Stats) 
             msg.push(b';');
         }
         msg.push(b':');
-        match t.weighted(&[5, 2, 2, 2, 1, 1]) {
+        match t.weighted(&[5, 2, 2, 2, 1, 1, 2]) {
             0 => {
                 // each query at most once per message (its return value is per declaration)
                 let avail: Vec<usize> = noarg_queries.iter().copied().filter(|i| !used.contains(i)).collect();
@@ -187,10 +187,21 @@ fn message_prop(model: &Model, queries: &[usize], tape: &[u32], st: &mut Stats) 
                 msg.extend_from_slice(b"RET:UBYTE? 1");
                 plans.push(UnitPlan::Silent("parameter count"));
             }
-            _ => {
+            5 => {
                 // query on a command-only node: undefined header found at execution
                 msg.extend_from_slice(b"RET:NONE?");
                 plans.push(UnitPlan::Silent("undefined header"));
+            }
+            _ => {
+                // a command whose payload contains a newline: through process the message is executed
+                // piecewise, answers already sent must not be sent again
+                if t.chance(1, 2) {
+                    msg.extend_from_slice(b"ARG:STRING 'a\nb'");
+                }
+                else {
+                    msg.extend_from_slice(b"ARG:BLOCK #13x\ny");
+                }
+                plans.push(UnitPlan::Silent("command with a newline in its payload"));
             }
         }
     }
